@@ -48,7 +48,7 @@ def decCols (cfg : Cfg) (v rows : Nat) : Schema → Parser (List Col)
   | [] => Parser.pure []
   | (n, tn, ty) :: ts => do
     let h ← Results.header cfg v
-    Parser.guard (h.1 == n && h.2 == tn)
+    Parser.guard (h.1 == n && (h.2 == tn || cfg.compat h.2 tn))
     let c ← colBody cfg ty rows
     let cs ← decCols cfg v rows ts
     Parser.pure (c :: cs)
